@@ -91,6 +91,75 @@ func ruleSENTINELIDX(c *Ctx) {
 			}
 		}
 	}
+	// provenance: an element of a state's la set is a goto index or the sentinel (buildLA stores
+	// the marker into these sets for no-eoi inputs), whether or not the function that reads it
+	// says so. A goto-table access indexed by such an element in a function that never compares
+	// it with the sentinel is unguarded by construction.
+	for _, f := range c.SrcFuncs("lalr") {
+		compared := map[ssa.Value]bool{}
+		var elems []ssa.Value
+		for _, b := range f.Blocks {
+			for _, ins := range b.Instrs {
+				switch x := ins.(type) {
+				case *ssa.BinOp:
+					if x.Op == token.EQL || x.Op == token.NEQ {
+						if strings.HasSuffix(vpath(x.Y), ".allTokensMarker") {
+							compared[x.X] = true
+						}
+						if strings.HasSuffix(vpath(x.X), ".allTokensMarker") {
+							compared[x.Y] = true
+						}
+					}
+				case *ssa.UnOp:
+					if x.Op != token.MUL {
+						continue
+					}
+					if ia, ok := x.X.(*ssa.IndexAddr); ok && strings.Contains(vpath(ia.X), ".la[") {
+						elems = append(elems, x)
+					}
+				}
+			}
+		}
+		ord := map[string]int{}
+		for _, el := range elems {
+			if compared[el] {
+				continue // handled above
+			}
+			for _, b := range f.Blocks {
+				for _, ins := range b.Instrs {
+					ia, ok := ins.(*ssa.IndexAddr)
+					if !ok || !strings.HasSuffix(vpath(ia.X), ".FromTo") {
+						continue
+					}
+					dep := false
+					var walk func(v ssa.Value, d int)
+					walk = func(v ssa.Value, d int) {
+						if d > 5 || dep {
+							return
+						}
+						if v == el {
+							dep = true
+							return
+						}
+						switch y := v.(type) {
+						case *ssa.BinOp:
+							walk(y.X, d+1)
+							walk(y.Y, d+1)
+						case *ssa.Convert:
+							walk(y.X, d+1)
+						}
+					}
+					walk(ia.Index, 0)
+					if !dep {
+						continue
+					}
+					n++
+					key := ordKey(ord, fmt.Sprintf("%s:la-element:%s[%s]", ssaFuncKey(f), normalizePhi(vpath(ia.X)), normalizePhi(vpath(ia.Index))))
+					c.Bad(rule, key, ia.Pos(), "%s is indexed by an element of a state's la set, which holds goto indices and, for no-eoi inputs, the sentinel c.allTokensMarker (== len(follow), one past the last goto); this function never compares the element with the sentinel: index out of range when a conflict of such a grammar is explained (the language server compiles with Verbose)", normalizePhi(vpath(ia.X)))
+				}
+			}
+		}
+	}
 	if n < 4 {
 		c.add(rule, "count:", token.NoPos, CountDropped, true, "only %d table accesses indexed by a possibly-sentinel value found (resolveWithLookahead, explainConflict/reduceRuleInfo and the trie builder confirmed by hand)", n)
 	}
